@@ -216,30 +216,36 @@ fn all_store_scenarios() -> Vec<String> {
 
 // ------------------------------------------------------------------ family: strategy (newer / none / arbiter through set_key_value)
 fn scenario_strategy(sc: &str) -> Result<Violations, String> {
-    // sc = "<strategy>|<old version>|<client version>|<arbiter 0/1>"
+    // sc = "<strategy>|<old version>|<client version>|<arbiter 0/1>[|<key>]"   (key defaults to k; `$$sk` is a secure key: the strategy decides for every key alike)
     let p: Vec<&str> = sc.split('|').collect();
     let strategy = match p[0] { "newer" => ConsensuStrategy::Newer, "arbiter" => ConsensuStrategy::Arbiter, _ => ConsensuStrategy::None };
     let ov: i32 = p[1].parse().map_err(|_| "bad")?;
     let cv: i32 = p[2].parse().map_err(|_| "bad")?;
     let dbs = mk_dbs();
+    let key: &str = p.get(4).copied().unwrap_or("k");
     let (db, mut rx) = mk_db(strategy, Some((ov, ValueStatus::Ok, "OLD")));
+    if key != "k" {
+        db.set_value_version(&key.to_string(), &"OLD".to_string(), ov, ValueStatus::Ok, 50, 51, 42);
+        let (s, r): (Sender<String>, Receiver<String>) = channel(1000);
+        db.watch_key(&key.to_string(), &s); std::mem::forget(s); rx = r;
+    }
     let (arb, _arx) = Client::new_empty_and_receiver();
     if p[3] == "1" { db.register_arbiter(&arb); }
     let before = snapshot(&db);
     let mut v: Violations = vec![];
-    let r = match catch_unwind(AssertUnwindSafe(|| set_key_value("k".into(), "NEW".into(), cv, &db, &dbs))) { Ok(r) => r, Err(_) => { v.push("C10.safety".into()); return Ok(v); } };
+    let r = match catch_unwind(AssertUnwindSafe(|| set_key_value(key.into(), "NEW".into(), cv, &db, &dbs))) { Ok(r) => r, Err(_) => { v.push("C10.safety".into()); return Ok(v); } };
     let after = snapshot(&db);
     let msgs = drain(&mut rx);
     let is_set = matches!(r, Response::Set { .. });
     match strategy {
         ConsensuStrategy::Newer => {
             if ov < i32::MAX { chk(&mut v, "C19.set-never-refused", is_set); chk(&mut v, "C19.apply-never-refused", is_set); chk(&mut v, "C19.never-refused", is_set); }
-            if let Response::Set { value, .. } = &r { let ok = after.get("k").map_or(false, |a| &a.value == value);
+            if let Response::Set { value, .. } = &r { let ok = after.get(key).map_or(false, |a| &a.value == value);
                 chk(&mut v, "C19.set-reply-truth", ok); chk(&mut v, "C19.apply-reply-truth", ok); chk(&mut v, "C19.reply-truth", ok); }
-            let g = after.get("k").map_or(false, |a| a.version >= ov);
+            let g = after.get(key).map_or(false, |a| a.version >= ov);
             chk(&mut v, "C19.set-grow", g); chk(&mut v, "C19.apply-grow", g); chk(&mut v, "C19.grow", g);
-            chk(&mut v, "C19.apply-frame", frame_except(&before, &after, &["k"])); chk(&mut v, "C19.frame", frame_except(&before, &after, &["k"]));
-            let replaced = after["k"].value != before["k"].value;
+            chk(&mut v, "C19.apply-frame", frame_except(&before, &after, &[key])); chk(&mut v, "C19.frame", frame_except(&before, &after, &[key]));
+            let replaced = after[key].value != before[key].value;
             chk(&mut v, "C19.notify-iff-changed", replaced == !msgs.is_empty());
         }
         ConsensuStrategy::None => {
@@ -251,14 +257,14 @@ fn scenario_strategy(sc: &str) -> Result<Violations, String> {
         }
         ConsensuStrategy::Arbiter => {
             if !is_set {
-                let kept = after.get("k").map_or(false, |a| a.value == "OLD");
+                let kept = after.get(key).map_or(false, |a| a.value == "OLD");
                 chk(&mut v, "C13.set-arbiter", kept); chk(&mut v, "C13.apply-arbiter", kept); chk(&mut v, "C13.keep-old", kept);
                 if p[3] == "0" { chk(&mut v, "C13.refuse", maps_equal(&before, &after)); }
                 else {
-                    chk(&mut v, "C13.keep-old", after["k"].version == MARK);
-                    let notices: Vec<&String> = after.keys().filter(|k| k.starts_with("$conflicts_k_")).collect();
+                    chk(&mut v, "C13.keep-old", after[key].version == MARK);
+                    let notices: Vec<&String> = after.keys().filter(|k| k.starts_with(&format!("$conflicts_{}_", key))).collect();
                     chk(&mut v, "C13.record", notices.len() == 1 && !after[notices[0]].value.starts_with("resolved"));
-                    chk(&mut v, "C13.not-applied", after.iter().all(|(k, e)| k == "k" || k.starts_with("$conflicts_k_") || before.get(k).map_or(false, |b| same(b, e))));
+                    chk(&mut v, "C13.not-applied", after.iter().all(|(k, e)| k == key || k.starts_with(&format!("$conflicts_{}_", key)) || before.get(k).map_or(false, |b| same(b, e))));
                 }
             }
         }
@@ -270,13 +276,15 @@ fn all_strategy_scenarios() -> Vec<String> {
     for s in ["newer", "none", "arbiter"] { for ov in VERSIONS { for cv in VERSIONS { for a in ["0", "1"] {
         if s != "arbiter" && a == "1" { continue; }
         out.push(format!("{}|{}|{}|{}", s, ov, cv, a));
+        if [1, 5].contains(&ov) { out.push(format!("{}|{}|{}|{}|$$sk", s, ov, cv, a)); }
     } } } }
     out
 }
 
 // ------------------------------------------------------------------ family: pending (register / ack event sequences)
 fn scenario_pending(sc: &str) -> Result<Violations, String> {
-    // sc = comma separated events  r<op><node> / a<op><node>, e.g. "r1a,r1b,a1a,a1a,a2c"
+    // sc = comma separated events  r<op><node> / a<op><node>, e.g. "r1a,r1b,a1a,a1a,a2c";  "race" = one forced interleaving of an acknowledgement and a registration
+    if sc == "race" { return scenario_pending_race(); }
     let dbs = mk_dbs();
     let mut v: Violations = vec![];
     let mut owing: HashMap<u64, Vec<String>> = HashMap::new();
@@ -306,6 +314,26 @@ fn scenario_pending(sc: &str) -> Result<Violations, String> {
     }
     Ok(v)
 }
+/// C15 under one forced interleaving: while node a's acknowledgement is inside acknowledge_pending_opp (parked on the latency statistics lock, which this scenario holds), the fan-out
+/// registers node b for the same operation; afterwards the operation must still be pending, for b
+fn scenario_pending_race() -> Result<Violations, String> {
+    let dbs = mk_dbs();
+    let mut v: Violations = vec![];
+    dbs.register_pending_opp(7, "m".into(), &"a".to_string());
+    let guard = dbs.replication_ema.write().unwrap();
+    let d1 = dbs.clone(); let t1 = std::thread::spawn(move || { d1.acknowledge_pending_opp(7, &"a".to_string()) });
+    std::thread::sleep(std::time::Duration::from_millis(30));
+    let d2 = dbs.clone(); let t2 = std::thread::spawn(move || { d2.register_pending_opp(7, "m".into(), &"b".to_string()); });
+    std::thread::sleep(std::time::Duration::from_millis(30));
+    drop(guard);
+    let ok1 = t1.join().is_ok(); let ok2 = t2.join().is_ok();
+    if !ok1 || !ok2 { v.push("C10.safety".into()); return Ok(v); }
+    let names: Option<Vec<String>> = dbs.get_pending_opp_copy(7).map(|m| m.replications.lock().unwrap().iter().filter(|(_, acked)| !**acked).map(|(n, _)| n.clone()).collect());
+    for l in ["C15.pending-iff-owing", "C15.ack-exact", "C15.exact-ack"] { chk(&mut v, l, names.as_ref().map_or(false, |n| n == &vec!["b".to_string()])); }
+    let r = dbs.acknowledge_pending_opp(7, &"b".to_string());
+    chk(&mut v, "C15.once", r); chk(&mut v, "C15.returns-to-zero", dbs.get_pending_opp_copy(7).is_none());
+    Ok(v)
+}
 fn all_pending_scenarios() -> Vec<String> {
     let evs = ["r1a", "r1b", "a1a", "a1b", "a1c", "r2a", "a2a"];
     let mut out = vec![];
@@ -315,6 +343,7 @@ fn all_pending_scenarios() -> Vec<String> {
         for e in evs { cur.push(e.to_string()); rec(evs, cur, depth - 1, out); cur.pop(); }
     }
     rec(&evs, &mut vec![], if deep() { 6 } else { 5 }, &mut out);
+    out.push("race".into());
     out
 }
 
@@ -1372,7 +1401,29 @@ fn scenario_lines(sc: &str) -> Result<Violations, String> {
     Ok(v)
 }
 // ------------------------------------------------------------------ family: connections ($connections == open sessions that selected the database)
+/// C17 under one forced interleaving: a session disconnects while another connection holds the table of databases for writing (an in-flight create-db): the disconnect waits
+/// and is then counted - it is never skipped
+fn scenario_connections_busy() -> Result<Violations, String> {
+    let w = mk_world(0);
+    let mut v: Violations = vec![];
+    let base = { let m = w.dbs.map.read().unwrap(); m.get("d").unwrap().connections_count() };
+    let (mut c, mut rx) = Client::new_empty_and_receiver();
+    run_cmd(&w, &mut c, &mut rx, "use-db d tok");
+    let guard = w.dbs.map.write().unwrap();
+    let d2 = w.dbs.clone();
+    let t = std::thread::spawn(move || { c.left(&d2); });
+    std::thread::sleep(std::time::Duration::from_millis(40));
+    drop(guard);
+    if t.join().is_err() { v.push("C10.safety".into()); return Ok(v); }
+    let m = w.dbs.map.read().unwrap();
+    let db = m.get("d").unwrap();
+    let key = db.get_value("$connections".into()).map(|e| e.value);
+    for l in ["C17.left-decrements", "C17.count-is-open-sessions", "C17.request-session-released"] { chk(&mut v, l, db.connections_count() == base); }
+    chk(&mut v, "C17.mirror", key.as_deref() == Some(base.to_string().as_str()));
+    Ok(v)
+}
 fn scenario_connections(sc: &str) -> Result<Violations, String> {
+    if sc == "busy" { return scenario_connections_busy(); }
     // sc = events separated by '.':  <session a|b|c><op>  ops: d (use-db d tok) e (use-db e etok) u (use-db d usr ut) x (use-db d wrong) l (disconnect) w (set $connections 9)
     let w = mk_world(0);
     {   let (mut admin, mut arx) = Client::new_empty_and_receiver();
@@ -1431,6 +1482,7 @@ fn all_connections_scenarios() -> Vec<String> {
         for e in evs { cur.push(e.to_string()); rec(evs, cur, depth - 1, out); cur.pop(); }
     }
     rec(&evs, &mut vec![], if deep() { 5 } else { 4 }, &mut out);
+    out.push("busy".into());
     out
 }
 
@@ -1677,6 +1729,12 @@ fn scenario_election(sc: &str) -> Result<Violations, String> {
     };
     if !ok { v.push("C10.safety".into()); return Ok(v); }
     let sup_msgs = drain(&mut sup); let mut rep_msgs = rep_seen; rep_msgs.extend(drain(&mut rep));
+    // every line the election code put on the replication channel is taken off it by the replication thread, which parses it - wrapper and wrapped command - and unwraps both
+    // results: a line the node's own parser refuses kills that thread (nothing is logged or replicated afterwards)
+    for m in &rep_msgs {
+        let inner_ok = match Request::parse(m) { Ok(Request::ReplicateRequest { request_str, opp_id: _ }) => Request::parse(&request_str).is_ok(), _ => false };
+        chk(&mut v, "C10.safety", inner_ok); chk(&mut v, "C07.election-lines-are-commands", inner_ok);
+    }
     let role = dbs.get_role();
     let candidacies = rep_msgs.iter().filter(|m| m.contains("election candidate")).count();
     let alive = rep_msgs.iter().filter(|m| m.contains("election alive")).count();
